@@ -9,7 +9,9 @@ hand exactly the right things to exactly one strategy and build the result from 
                 the numpy backend and concat otherwise, anything else -> ValueError; each strategy receives
                 the stored blocks (concat also the indices), every layout field in its own position, the
                 transpose / reshape / zeros functions of the backend of an example block, and zeros keyword
-                arguments that carry the dtype (and device, if any) of that example block (C20)
+                arguments that carry the COMMON dtype of all stored blocks -- their dtypes folded with the
+                backend's promote_types, so that blocks of mixed element type (real + complex) keep their
+                imaginary parts (C20; finding F19, repaired) -- and the device of an example block, if any
               * result: new indices and new blocks from the layout / strategy; out of place -> a new array
                 (copy_with), operand untouched; in place -> the receiver modified and returned
   fuse        * empty groups are split off, the others are passed on as tuples in the given order together
@@ -63,8 +65,44 @@ def _core_task(mode, backend, inplace, with_device):
         if with_device:
             ex.fields["device"] = SV(ctx.fresh("device", DT), DT)
         it.summaries["block_core.BlockBase.get_any_array"] = lambda it_, a, kw: ex
+        # the element types of ALL stored blocks, folded with the backend's promotion: the common dtype
+        common = SV(ctx.fresh("common_dtype_of_all_blocks", DT), DT)
+        PROMOTE = z3.Function("promote_types", DT.sort(), DT.sort(), DT.sort())
+        marker = SymObj(None, tag="dtypes_of_all_stored_blocks")
+
+        def comp_hook(it_, e, env, kind, it0):
+            from pyvc.core import KeyIter
+            import ast as _ast
+
+            if isinstance(it0, KeyIter) and it0.has is bl.has and it0.mode == "values" and kind == "gen":
+                var = e.generators[0].target
+                if isinstance(var, _ast.Name) and not e.generators[0].ifs and _ast.unparse(e.elt) == f"{var.id}.dtype":
+                    return marker
+                raise Unsupported("unexpected generator over the stored blocks")
+            return None
+
+        it.comp_hook = comp_hook
+
+        def reduce_hook(it_, f, seq):
+            if seq is not marker:
+                raise Unsupported("functools.reduce over another symbolic iterable")
+            # the folding function must be the promotion of two dtypes (equal dtypes: that dtype)
+            a_, b_ = SV(ctx.fresh("dt_a", DT), DT), SV(ctx.fresh("dt_b", DT), DT)
+            r = it_.call(f, [a_, b_])
+            okf = isinstance(r, SV) and r.ty == DT and (z3.eq(r.t, a_.t) or z3.eq(r.t, PROMOTE(a_.t, b_.t)))
+            ctx.oblige("_fuse_core.block_dtypes_are_folded_with_the_backend_promotion", z3.Implies(z3.BoolVal(bool(okf and z3.eq(r.t, a_.t))), a_.t == b_.t) if okf else z3.BoolVal(False))
+            return common
+
+        it.reduce_hook = reduce_hook
         it.externals["ar.infer_backend"] = lambda it_, a, kw: backend if a[0] is ex else (_ for _ in ()).throw(Unsupported("backend of something else"))
         fns = {}
+
+        def ar_do(it_, a, kw):
+            if a[0] == "promote_types" and kw.get("like") == backend and all(isinstance(z, SV) and z.ty == DT for z in a[1:3]):
+                return SV(PROMOTE(a[1].t, a[2].t), DT)
+            raise Unsupported(f"ar.do({a[0]!r})")
+
+        it.externals["ar.do"] = ar_do
 
         def get_lib_fn(it_, a, kw):
             if a[0] != backend:
@@ -94,8 +132,8 @@ def _core_task(mode, backend, inplace, with_device):
                 return out
             a, kw = log[eff][0]
             zk = a[-1] if a else None
-            okz = isinstance(zk, dict) and zk.get("dtype") is ex.fields["dtype"] and (zk.get("device") is ex.fields["device"] if with_device else "device" not in zk) and set(zk) <= {"dtype", "device"}
-            out.append(("zeros_keyword_arguments_carry_dtype_and_device_of_an_example_block", bool(okz)))
+            okz = isinstance(zk, dict) and zk.get("dtype") is common and (zk.get("device") is ex.fields["device"] if with_device else "device" not in zk) and set(zk) <= {"dtype", "device"}
+            out.append(("zeros_keyword_arguments_carry_the_common_dtype_of_all_blocks_and_the_device", bool(okz)))
             f_t, f_r, f_z = fns.get("transpose"), fns.get("reshape"), fns.get("zeros")
             if eff == "insert":
                 want = [bl, info["num_groups"], info["group_singlets"], info["perm"], info["position"], info["new_indices"], info["blockmap"], f_t, f_r, f_z]
